@@ -1241,6 +1241,7 @@ class LoopCombinatorStep(CombinatorStep):
         status = Status.SKIPPED
         if self.input_ports:
             input_tasks, terminated = [], []
+            failed = False
             for port_name, port in self.get_input_ports().items():
                 self.iteration_termination_checklist[port_name] = set()
                 input_tasks.append(
@@ -1266,6 +1267,16 @@ class LoopCombinatorStep(CombinatorStep):
                             )
                         if token.value != Status.COMPLETED:
                             self.iteration_termination_checklist.get(task_name).clear()
+                        if token.value in (Status.FAILED, Status.CANCELLED):
+                            # No further combination can be produced: stop waiting for the
+                            # iteration terminations of the ports that already terminated
+                            failed = True
+                            for t in input_tasks:
+                                if t.get_name() in terminated:
+                                    t.cancel()
+                            input_tasks = [
+                                t for t in input_tasks if t.get_name() not in terminated
+                            ]
                         terminated.append(task_name)
                     # If an IterationTerminationToken is received, mark the corresponding iteration as terminated
                     elif check_iteration_termination(token):
@@ -1310,7 +1321,10 @@ class LoopCombinatorStep(CombinatorStep):
                     # Create a new task in place of the completed one if the port is not terminated
                     if not (
                         task_name in terminated
-                        and len(self.iteration_termination_checklist[task_name]) == 0
+                        and (
+                            failed
+                            or len(self.iteration_termination_checklist[task_name]) == 0
+                        )
                     ):
                         input_tasks.append(
                             asyncio.create_task(
